@@ -53,12 +53,17 @@ type N struct {
 	Cs    []int           `json:"cs"`  // character codes of a string literal
 	Lo    int             `json:"lo"`
 	Hi    int             `json:"hi"`
-	VV    string          `json:"vv"` // value variable of a range loop
+	VV    string          `json:"vv"`   // value variable of a range loop
+	Via   string          `json:"via"`  // "val": through a struct variable, "ptr": through a pointer to one
+	Par   bool            `json:"par"`  // the function literal takes a parameter a
+	Dpos  int             `json:"dpos"` // the default clause stands before case dpos+1
+	DFall bool            `json:"dfall"`
 }
 
 type Case struct {
 	C    json.RawMessage `json:"c"` // condition of a tagless switch case
 	V    int             `json:"v"`
+	W    int             `json:"w"` // second value of the case (equal to V: none)
 	Body []*N            `json:"body"`
 	Fall bool            `json:"fall"`
 }
@@ -156,11 +161,18 @@ func (b *Beh) PanicValue() string {
 	return strings.Trim(string(b.Pval), `"`)
 }
 
+// TypeDecl is the declaration of T with its methods, as it stands in the prelude.
+const TypeDecl = "type T struct{ a, b int }\n\nfunc (t *T) bump(d int) { t.a += d }\n\nfunc (t T) sum() int { return t.a*3 + t.b }\n"
+
 const Prelude = `package main
 
 import "fmt"
 
 type T struct{ a, b int }
+
+func (t *T) bump(d int) { t.a += d }
+
+func (t T) sum() int { return t.a*3 + t.b }
 
 var g0, g1 = 1, 2
 var t = T{3, 4}
@@ -252,7 +264,24 @@ func Expr(e *N) string {
 		}
 		return e.F + "(" + strings.Join(as, ", ") + ")"
 	case "clo":
-		return e.cloName() + "()"
+		var as []string
+		for _, a := range e.Args {
+			as = append(as, Expr(a))
+		}
+		return e.cloName() + "(" + strings.Join(as, ", ") + ")"
+	case "cvar":
+		return e.X()
+	case "ufld":
+		return e.S + "." + e.F
+	case "qfld":
+		return e.P + "." + e.F
+	case "usum":
+		return e.S + ".sum()"
+	case "bvar":
+		return e.S
+	case "ucmp":
+		op := map[string]string{"eq": "==", "ne": "!="}[e.Op]
+		return e.S + " " + op + " " + e.From
 	case "mget":
 		return e.S + "[" + key(e.I) + "]"
 	case "mlen", "slen":
@@ -521,8 +550,24 @@ func (r *rend) stmt(s *N) {
 		r.line("*%s %s= %s", s.P, map[string]string{"add": "+", "sub": "-"}[s.Op], Expr(s.E))
 	case "switch":
 		r.line("switch %s {", Expr(s.Tag))
-		for _, c := range s.Cases {
-			r.line("case %d:", c.V)
+		dflt := func() {
+			r.line("default:")
+			r.ind++
+			r.block(s.Dflt)
+			if s.DFall {
+				r.line("fallthrough")
+			}
+			r.ind--
+		}
+		for i, c := range s.Cases {
+			if i == s.Dpos {
+				dflt()
+			}
+			if c.W != c.V {
+				r.line("case %d, %d:", c.V, c.W)
+			} else {
+				r.line("case %d:", c.V)
+			}
 			r.ind++
 			r.block(c.Body)
 			if c.Fall {
@@ -530,10 +575,9 @@ func (r *rend) stmt(s *N) {
 			}
 			r.ind--
 		}
-		r.line("default:")
-		r.ind++
-		r.block(s.Dflt)
-		r.ind--
+		if s.Dpos >= len(s.Cases) {
+			dflt()
+		}
 		r.line("}")
 	case "brk":
 		if s.Lab == "" {
@@ -556,7 +600,11 @@ func (r *rend) stmt(s *N) {
 	case "ret2":
 		r.line("return %s, %s", Expr(s.A), Expr(s.B))
 	case "mkclo":
-		r.line("%s := func() int {", s.cloName())
+		if s.Par {
+			r.line("%s := func(a int) int {", s.cloName())
+		} else {
+			r.line("%s := func() int {", s.cloName())
+		}
 		r.ind++
 		r.block(s.Body)
 		r.ind--
@@ -586,6 +634,12 @@ func (r *rend) stmt(s *N) {
 			r.line("defer %s(%s)", s.F, Expr(s.E))
 		case "print":
 			r.line("defer fmt.Println(\"d\", %s)", Expr(s.E))
+		case "method":
+			r.line("defer %s.bump(%s)", s.S, Expr(s.E))
+		case "clo":
+			r.line("defer %s()", s.S)
+		case "mdel":
+			r.line("defer delete(%s, %s)", s.S, key(s.E))
 		}
 	case "panic":
 		r.line("panic(%s)", Expr(s.E))
@@ -604,6 +658,48 @@ func (r *rend) stmt(s *N) {
 		r.line("} else {")
 		r.line("\tfmt.Println(\"norec\")")
 		r.line("}")
+	case "cdef":
+		r.line("const %s = %d", s.X(), s.V())
+		r.line("_ = %s", s.X())
+	case "bdef":
+		r.line("%s := %s", s.S, Expr(s.cond()))
+		r.line("_ = %s", s.S)
+	case "basg":
+		r.line("%s = %s", s.S, Expr(s.cond()))
+	case "umk":
+		if s.Form == "lit" {
+			r.line("%s := T{%s, %s}", s.S, Expr(s.A), Expr(s.B))
+		} else {
+			r.line("%s := %s", s.S, s.From)
+		}
+		r.line("_ = %s", s.S)
+	case "ucopy":
+		r.line("%s = %s", s.S, s.From)
+	case "ufset":
+		if s.Op == "set" {
+			r.line("%s.%s = %s", s.S, s.F, Expr(s.E))
+		} else {
+			r.line("%s.%s += %s", s.S, s.F, Expr(s.E))
+		}
+	case "ubump":
+		r.line("%s.bump(%s)", s.S, Expr(s.E))
+	case "uprint":
+		r.line("fmt.Println(\"u\", %s.a, %s.b)", s.S, s.S)
+	case "mkpu":
+		r.line("%s := &%s", s.P, s.S)
+		r.line("_ = %s", s.P)
+	case "qfset":
+		if s.Op == "set" {
+			r.line("%s.%s = %s", s.P, s.F, Expr(s.E))
+		} else {
+			r.line("%s.%s += %s", s.P, s.F, Expr(s.E))
+		}
+	case "qcopy":
+		if s.Form == "store" {
+			r.line("*%s = %s", s.P, s.S)
+		} else {
+			r.line("%s = *%s", s.S, s.P)
+		}
 	case "mkmap":
 		switch s.Form {
 		case "nil":
